@@ -2,7 +2,8 @@
 proof: coq/Props/C01.v over coq/Codec/*; tie: Go MarshalBinary/UnmarshalBinary/encoding/json of all 169
 containers vs the extracted model, on schema-directed value trees (checks/codec_gen.py).
 Predicates on Go alone: Unmarshal(Marshal v) == v, Marshal(Unmarshal(Marshal v)) == Marshal v, JSON round trip == v.
-Correspondence: Go's bytes == the model's bytes; Go's decoder on the model's bytes == v."""
+Correspondence: Go's bytes == the model's bytes; Go's decoder on the model's bytes == v;
+json.Marshal's text (parsed independently) == the model's to_json; Go's JSON round trip == the model's of_json(to_json v)."""
 import codec_common
 
 PID = "C01"
@@ -15,6 +16,10 @@ def run(tier, seed, replay=None):
         "domain = well-formed values: numbers within their bit width, list/string lengths < 2^16, bit-array bytes = ceil(bits/8), "
         "exactly one non-zero alternative per exclusive group, every nested parameter's encoded size < 2^16; "
         "values with a parameter size >= 2^16 are recorded, not judged",
-        "JSON part only for values whose text fields are valid UTF-8; encoding/json of the Go toolchain is trusted",
+        "JSON clause: judged on Go alone (json.Unmarshal(json.Marshal v) == v) for values whose text fields are valid UTF-8; proved for the model "
+        "Codec/Json.v (JSON trees, base64, U+FFFD replacement; coq/Codec/JsonTable.v generated from the pinned layout); tie: json.Marshal's "
+        "text, parsed by python's json module (member order kept, integers exact), == Json.to_json for every case, and Go's round-trip result == "
+        "Json.of_json (Json.to_json v) also where invalid UTF-8 is replaced; not modelled, trusted: the JSON text syntax (escaping, number "
+        "formatting), encoding/json's reflection over struct types, Unmarshal's leniencies (unknown/missing/duplicate members, case-insensitive names)",
         "spec/llrp_layout.json is the pinned copy of messages.yaml the model's SchemaTable is generated from",
     ])
